@@ -1267,6 +1267,29 @@ fn hostile_structural(enc: &[u8], r: &mut Rng) -> Vec<(&'static str, Vec<u8>)> {
                 }
             }
         }
+        // integer fields at the extremes of their encoded width (what a Nullable must refuse)
+        for i in 0..slices.len() {
+            let c = slices[i];
+            let vt = c[0] & 0x1f;
+            if c[0] >> 5 == 1 && vt < 8 {
+                let w = 1usize << (vt & 3);
+                if c.len() == 2 + w {
+                    for fill in [0u8, 1, 2] {
+                        let mut x = c.to_vec();
+                        for (j, b) in x[2..].iter_mut().enumerate() {
+                            *b = match fill {
+                                0 => 0xff,
+                                1 => if j + 1 == w { 0x80 } else { 0x00 },
+                                _ => if j + 1 == w { 0x7f } else { 0xff },
+                            };
+                        }
+                        let mut parts = slices.clone();
+                        parts[i] = &x;
+                        v.push(("y-int-extreme", build(&parts)));
+                    }
+                }
+            }
+        }
         // another container type
         for b in [0x15u8, 0x16, 0x17] {
             if enc[0] & 0x1f != b & 0x1f {
